@@ -104,12 +104,18 @@ def hx(s):
 
 
 def first_numbers(names):
+    """every number the checker can come to read in these names: the digit runs of a name, and the concatenations of up to
+    four of them in order with any of the others left out (brackets, mod suffixes and hyphens make the checker drop parts
+    of a name before it reads a number)"""
+    import itertools
     out = set()
     for n in names:
-        runs = re.findall(r"\d+", n)
-        for i in range(len(runs)):
-            for j in range(i + 1, min(len(runs), i + 4) + 1):
-                out.add(int("".join(runs[i:j])))
+        runs = re.findall(r"\d+", n)[:8]
+        for k in range(1, min(4, len(runs)) + 1):
+            for idx in itertools.combinations(range(len(runs)), k):
+                v = "".join(runs[i] for i in idx)
+                if len(v) <= 30:
+                    out.add(int(v))
     return out
 
 
@@ -128,13 +134,21 @@ def run(rep, tier, seed, replay=None):
     # number_to_words is a parameter of the model: fill the table from the real crate
     nums = sorted(first_numbers(names) | first_numbers([n for _, n in shipped]))
     n2w_out, _ = vlib.run_impl([f"n{k} n2w {v}" for k, v in enumerate(nums)], tag="c20n")
-    table = "n2w=" + ";".join(f"{v}:{n2w_out[f'n{k}']}" for k, v in enumerate(nums)) if nums else "-"
+    words_of = {v: n2w_out[f"n{k}"] for k, v in enumerate(nums)}
+
+    def table_for(ns):
+        """the part of the number_to_words table the names of one case can ask for (the whole table on every line made the
+        thorough tier's lines tens of kilobytes long)"""
+        need = sorted(first_numbers(ns))
+        return "n2w=" + ";".join(f"{v}:{words_of[v]}" for v in need if v in words_of) if need else "-"
+
+    table = None  # (every line carries its own part of the table)
     junk = ["zzqqzz", "Zzqq9"]
     phase1, meta = [], {}
     for i, nm in enumerate(names):
         for j, jid in enumerate(junk):
             cid = f"a{i}j{j}"
-            phase1.append(f"{cid} idcheck {table} {hx(jid)}:{hx(nm)}")
+            phase1.append(f"{cid} idcheck {table_for([nm])} {hx(jid)}:{hx(nm)}")
             meta[cid] = (nm, jid)
     model, impl, panics = vlib.correspond(rep, netprops.corpus("C20") + phase1, oracle=netprops.crash_oracle, tag="c20")
 
@@ -158,31 +172,32 @@ def run(rep, tier, seed, replay=None):
         if a is None or b is None:
             continue
         if a != b:
-            rep.oracle_failures.append(("expected-depends-on-proposed-id", f"{nm!r}: expected ids {sorted(a)} for one wrong id, {sorted(b)} for another", f"a{i}j0 idcheck {table} {hx(junk[0])}:{hx(nm)}", impl.get(f"a{i}j0", "")))
+            rep.oracle_failures.append(("expected-depends-on-proposed-id", f"{nm!r}: expected ids {sorted(a)} for one wrong id, {sorted(b)} for another", f"a{i}j0 idcheck {table_for([nm])} {hx(junk[0])}:{hx(nm)}", impl.get(f"a{i}j0", "")))
         if not a:
             rep.oracle_failures.append(("no-expected-id", f"{nm!r}: a wrong id was rejected without any expected id", f"a{i}j0", impl.get(f"a{i}j0", "")))
         for k, x in enumerate(sorted(a)):
             if not x:
                 continue
             cid = f"b{i}x{k}"
-            phase2.append(f"{cid} idcheck {table} {hx(x)}:{hx(nm)}")
+            phase2.append(f"{cid} idcheck {table_for([nm])} {hx(x)}:{hx(nm)}")
             expect[cid] = ("accept", nm, x)
             for v, near in enumerate([x.upper() if x.upper() != x else x + "x", x + "2", x[:-1] or "q"]):
                 if near and near not in a:
                     cid2 = f"b{i}x{k}n{v}"
-                    phase2.append(f"{cid2} idcheck {table} {hx(near)}:{hx(nm)}")
+                    phase2.append(f"{cid2} idcheck {table_for([nm])} {hx(near)}:{hx(nm)}")
                     expect[cid2] = ("reject", nm, near)
     # lists of 1-4 games (ids: expected ones and wrong ones mixed), and the shipped table
     lists = []
     for k in range(150 if tier == "quick" else 4000):
         n = rnd.choice([2, 2, 3, 4])
-        pairs = []
+        pairs, used = [], []
         for _ in range(n):
             i = rnd.randrange(len(names))
             a = expected_set(impl.get(f"a{i}j0", ""), junk[0]) or {"x"}
             pid = rnd.choice(sorted(a) + ["wrong", "dod"]) or "e"
             pairs.append(f"{hx(pid)}:{hx(names[i])}")
-        lists.append(f"l{k} idcheck {table} " + ",".join(pairs))
+            used.append(names[i])
+        lists.append(f"l{k} idcheck {table_for(used)} " + ",".join(pairs))
     # lists of games that COLLIDE: names bucketed by an expected id they share (as reported by the checker itself in the
     # first phase), 2-4 of a bucket in every order of a small sample, each proposing the shared id, another expected id or a wrong one
     buckets = {}
@@ -202,12 +217,12 @@ def run(rep, tier, seed, replay=None):
             orders = list(itertools.permutations(pick))
             for order in (orders if len(orders) <= 6 else rnd.sample(orders, 6 if tier == "quick" else 24)):
                 pairs = [f"{hx(rnd.choice([x, x, 'wrong', x + '2']))}:{hx(nm)}" for nm in order]
-                lists.append(f"lc{nl} idcheck {table} " + ",".join(pairs))
+                lists.append(f"lc{nl} idcheck {table_for(list(order))} " + ",".join(pairs))
                 nl += 1
         if nl > (1500 if tier == "quick" else 40000):
             break
     rep.count("colliding-lists", nl)
-    shipped_case = "shipped idcheck " + table + " " + ",".join(f"{hx(i)}:{hx(n)}" for i, n in shipped)
+    shipped_case = "shipped idcheck " + table_for([n for _, n in shipped]) + " " + ",".join(f"{hx(i)}:{hx(n)}" for i, n in shipped)
 
     def oracle2(case, out, model_out, panic):
         res = netprops.crash_oracle(case, out, model_out, panic)
